@@ -265,27 +265,32 @@ def run(ctx):
             # the index of a decomposed clique is recorded (on the same path) and filtered out afterwards
             excl = [n for n in ast.walk(lp) if isinstance(n, ast.Call) and isinstance(n.func, ast.Attribute) and n.func.attr in ("append", "add") and len(n.args) == 1
                     and txt(n.args[0]) == cv and isinstance(n.func.value, ast.Name) and rules.path_term(parl, scl, n, upto=lp, keep=keep) == got]
-            filt = None
-            keepset = None
-            for s_ in lm.body:
-                if isinstance(s_, (ast.Assign, ast.AnnAssign)) and isinstance(s_.value, ast.ListComp) and len(s_.value.generators) == 1 and not s_.value.generators[0].ifs \
-                        and txt(s_.targets[0] if isinstance(s_, ast.Assign) else s_.target) == Cn and txt(s_.value.elt) == f"{Cn}[{txt(s_.value.generators[0].target)}]":
-                    filt = s_
-                    keepset = scl.resolve(s_.value.generators[0].iter, keep=[Cn])
             if not excl:
                 o.violated(lm, where, "the index of a decomposed clique is not recorded for exclusion: oversized cliques stay in the result (size bound broken, edges covered twice)")
-            elif filt is None:
-                o.violated(lm, excl[0], "the computed keep-set is not applied: oversized cliques stay in the result next to their sub-cliques")
             else:
                 X = txt(excl[0].func.value)
-                ks = scl.resolve(keepset, keep=[Cn, X])
-                while isinstance(ks, ast.Call) and txt(ks.func) in ("sorted", "list") and len(ks.args) == 1:
-                    ks = ks.args[0]
-                if match(pat(f"set(range(len({Cn}))) - set({X})"), ks) is not None or match(pat(f"set(range(len({Cn}))).difference({X})"), ks) is not None \
-                        or match(pat(f"set(range(len({Cn}))) - {X}"), ks) is not None:
-                    o.holds(lm, filt, "the indices of decomposed cliques are removed from the result")
+                # the keep-set  set(range(len(C))) - set(X)  and an iteration over it that picks C[i]
+                def _is_keepset(e_):
+                    e_ = scl.resolve(e_, keep=[Cn, X])
+                    while isinstance(e_, ast.Call) and txt(e_.func) in ("sorted", "list", "tuple") and len(e_.args) == 1:
+                        e_ = e_.args[0]
+                    return match(pat(f"set(range(len({Cn}))) - set({X})"), e_) is not None or match(pat(f"set(range(len({Cn}))).difference({X})"), e_) is not None \
+                        or match(pat(f"set(range(len({Cn}))) - {X}"), e_) is not None
+                keepsets = [n for n in astx.walk_fn(lm.node) if isinstance(n, (ast.BinOp, ast.Call)) and _is_keepset(n)]
+                users = []
+                for n in astx.walk_fn(lm.node):
+                    gens = n.generators if isinstance(n, (ast.ListComp, ast.GeneratorExp, ast.SetComp)) else []
+                    for g_ in gens:
+                        if _is_keepset(g_.iter) and any(isinstance(x, ast.Subscript) and txt(x.value) == Cn and txt(x.slice) == txt(g_.target) for x in ast.walk(n.elt)):
+                            users.append(n)
+                    if isinstance(n, ast.For) and _is_keepset(n.iter) and any(isinstance(x, ast.Subscript) and txt(x.value) == Cn and txt(x.slice) == txt(n.target) for b_ in n.body for x in ast.walk(b_)):
+                        users.append(n)
+                if users:
+                    o.holds(lm, users[0], "the indices of decomposed cliques are removed from the result")
+                elif not keepsets:
+                    o.violated(lm, excl[0], "the computed keep-set is not applied: oversized cliques stay in the result next to their sub-cliques")
                 else:
-                    o.undecided(f"keep-set `{txt(ks)[:80]}` not recognised", lm, filt)
+                    o.undecided(f"how the keep-set `{txt(keepsets[0])[:60]}` is applied was not recognised", lm, keepsets[0])
 
     with ctx.obligation("C09.4", "members are sorted BEFORE duplicates are removed", floor=2) as o:
         dedupes = [n for n in astx.walk_fn(lm.node) if isinstance(n, ast.Call) and txt(n.func) == "set" and n.args and isinstance(n.args[0], (ast.GeneratorExp, ast.ListComp))
